@@ -14,6 +14,36 @@ mod eng_layout;
 mod eng_foreign;
 mod eng_device;
 mod eng_copy;
+mod eng_mutants;
+
+#[global_allocator]
+static ALLOC: eng_mutants::Counting = eng_mutants::Counting;
+
+use std::sync::Mutex;
+static WATCH: Mutex<Option<(std::time::Instant, String)>> = Mutex::new(None);
+static WATCH_OUT: Mutex<String> = Mutex::new(String::new());
+
+pub fn watchdog_begin(case: &str) {
+    *WATCH.lock().unwrap() = Some((std::time::Instant::now(), case.to_string()));
+}
+pub fn watchdog_end() {
+    *WATCH.lock().unwrap() = None;
+}
+fn start_watchdog(out_dir: &str, engine: &str) {
+    *WATCH_OUT.lock().unwrap() = format!("{out_dir}/{engine}.hang.case");
+    std::thread::spawn(|| loop {
+        std::thread::sleep(std::time::Duration::from_millis(500));
+        let g = WATCH.lock().unwrap();
+        if let Some((t, case)) = g.as_ref() {
+            if t.elapsed().as_secs() >= 30 {
+                let path = WATCH_OUT.lock().unwrap().clone();
+                let _ = std::fs::write(&path, case);
+                println!("WATCHDOG case exceeded 30 s: {path}");
+                std::process::exit(86);
+            }
+        }
+    });
+}
 
 use util::Sink;
 
@@ -28,6 +58,7 @@ fn exec_line(engine: &str, line: &str) -> String {
         "foreign" => eng_foreign::exec(line),
         "device" => eng_device::exec(line),
         "copy" | "tools" => eng_copy::exec(line),
+        "mutants" => eng_mutants::exec(line),
         "devdbg" => eng_device::debug_read_fault(line),
         _ => "BADENGINE".into(),
     }
@@ -49,6 +80,8 @@ fn main() {
             let thorough = args[4] == "thorough";
             let out = &args[5];
             let mut sink = Sink::new(engine);
+            std::fs::create_dir_all(out).ok();
+            start_watchdog(out, engine);
             match engine {
                 "bits" => eng_bits::generate(&mut sink, seed, thorough),
                 "pages" => eng_pages::generate(&mut sink, seed, thorough),
@@ -60,6 +93,7 @@ fn main() {
                 "device" => eng_device::generate(&mut sink, seed, thorough),
                 "copy" => eng_copy::generate(&mut sink, seed, thorough),
                 "tools" => eng_copy::generate_tools(&mut sink, seed, thorough),
+                "mutants" => eng_mutants::generate(&mut sink, seed, thorough),
                 _ => {
                     eprintln!("unknown engine {engine}");
                     std::process::exit(2);
